@@ -829,3 +829,19 @@ Example empty_profile_denies_all :
   | Error _ => False
   end.
 Proof. vm_compute. reflexivity. Qed.
+
+(** ** List flags (C18): an occurrence that names nothing neither adds nor removes a name, wherever it stands, and
+    the names of the occurrences accumulate in order *)
+Lemma flag_values_app a b : flag_values (a ++ b) = flag_values a ++ flag_values b.
+Proof. unfold flag_values. apply flat_map_app. Qed.
+
+Lemma flag_values_nameless a v b : flag_fields v = [] -> flag_values (a ++ v :: b) = flag_values (a ++ b).
+Proof.
+  intro H. rewrite !flag_values_app. unfold flag_values at 2. cbn [flat_map]. rewrite H. reflexivity.
+Qed.
+
+Lemma fields_aux_seps s : (forall c, In c (list_ascii_of_string s) -> is_sep c = true) -> fields_aux s EmptyString = [].
+Proof.
+  induction s as [|c r IH]; intro H; [reflexivity|].
+  cbn [fields_aux]. rewrite (H c (or_introl eq_refl)). apply IH. intros c' Hc'. apply H. right. exact Hc'.
+Qed.
